@@ -130,6 +130,23 @@ class ProgramRun(GraphRun):
         self.calls.clear()
         self.slots = []
 
+    TOTALS = {"log_prob": "_model_log_prob", "log_lik": "_model_log_lik", "log_prior": "_model_log_prior"}
+
+    def targeted_total(self, which):
+        """model.update(<that total's node>) - with auto-update possibly off and ancestors outdated."""
+        m = self.model
+        m.update(self.TOTALS[which])
+        calls = list(self.calls)
+        ev = {"ev": "targeted_total", "which": which, which: self._leaves(getattr(m, which))}
+        self.calls[:] = calls
+        self.calls.clear()
+        return ev
+
+    def _configure_builder(self, gb):
+        for key, attr in (("lp", "log_prob_node"), ("ll", "log_lik_node"), ("lpr", "log_prior_node")):
+            if self.user.get(key):
+                setattr(gb, attr, self.nodes[self.user[key]])
+
     def header(self):
         h = super().header()
         n = self.n
@@ -170,7 +187,22 @@ def symbolic_trace(rng):
     vals = [i + 1 for i, p in enumerate(plan) if p["kind"] == "v"]
     ops = []
     for _ in range(rng.randint(1, 4)):
-        if vals:
+        r = rng.random()
+        if vals and r < 0.25:
+            # assignments with auto-update off, then a targeted update of one total only
+            o1 = {"ev": "set_auto", "b": False}
+            o2 = {"ev": "assign", "n": rng.choice(vals), "x": rng.choice("abc") + str(rng.randint(4, 6)), "via_var": rng.random() < 0.5}
+            which = rng.choice(["log_prob", "log_prob", "log_lik", "log_prior"])
+            ops += [o1, o2, {"ev": "targeted_total", "which": which}]
+            ev += [run.op(o1), run.op(o2), run.targeted_total(which)]
+            o3, o4 = {"ev": "update_all"}, {"ev": "set_auto", "b": True}
+            ops += [o3, o4]
+            ev += [run.op(o3), run.op(o4)]
+        elif vals and r < 0.4:
+            o = {"ev": "rebuild", "n": rng.choice(vals), "x": rng.choice("abc") + str(rng.randint(7, 9))}
+            ops.append(o)
+            ev.append(run.rebuild(o["n"], o["x"]))
+        elif vals:
             o = {"ev": "assign", "n": rng.choice(vals), "x": rng.choice("abc") + str(rng.randint(0, 3)),
                  "via_var": rng.random() < 0.5}
             ops.append(o)
